@@ -154,10 +154,21 @@ impl acpi_tables::AmlSink for ByteOnly {
 pub fn ser(a: &dyn acpi_tables::Aml) -> Vec<u8> {
     use std::sync::atomic::{AtomicUsize, Ordering};
     static N: AtomicUsize = AtomicUsize::new(0);
-    if N.fetch_add(1, Ordering::Relaxed) % 3 == 2 {
+    let n = N.fetch_add(1, Ordering::Relaxed);
+    if n % 3 == 2 {
         let mut s = ByteOnly(Vec::new());
         a.to_aml_bytes(&mut s);
         s.0
+    } else if n % 3 == 1 {
+        // a vector that already holds data (1..=13 bytes): what is appended must not depend on what is there
+        let pre: Vec<u8> = (0..(1 + n % 13)).map(|i| 0xC0 ^ i as u8).collect();
+        let mut v = pre.clone();
+        a.to_aml_bytes(&mut v);
+        if v.len() >= pre.len() && v[..pre.len()] == pre[..] {
+            v.split_off(pre.len())
+        } else {
+            v // the bytes already in the sink were touched: hand back everything, the judge will not find its image
+        }
     } else {
         let mut v = Vec::new();
         a.to_aml_bytes(&mut v);
